@@ -173,6 +173,38 @@ func runConc(c *ctx) error {
 			}
 		}
 	}
+	// racing pairs: for many devices, a report and the conflicting authorization that bans its device start from a common
+	// gate with a swept head start; whatever the order, the handlers finish and the result is a sequential one
+	if c.part("gaps") || c.only == "pairs" {
+		if err := s.fresh("conc/pairs", 1000); err != nil {
+			return err
+		}
+		npairs := 150
+		if c.tier == "thorough" {
+			npairs = 600
+		}
+		for i := 0; i < npairs; i++ {
+			d := e.addDevice()
+			rep := e.ReportBytes(d, e.Now()-uint32(i%50), 30+uint64(i%40), fmt.Sprintf("c%d", d), 0)
+			banAuth := e.BuildAuth(hx.AuthSpec{ID: d, Key: fmt.Sprintf("c%d", d), Cap: 31337, Signer: "gca"})
+			start := make(chan struct{})
+			var wg sync.WaitGroup
+			wg.Add(2)
+			go func() { defer wg.Done(); <-start; e.Deliver(rep) }()
+			go func() {
+				defer wg.Done()
+				<-start
+				for spin := 0; spin < (i%60)*300; spin++ {
+					_ = spin
+				}
+				e.Authorize(banAuth)
+			}()
+			close(start)
+			wg.Wait()
+		}
+		e.devs = nil
+		s.CheckInv()
+	}
 	// randomized many-goroutine workload
 	if c.part("random") {
 		rounds, iters := 2, 8
